@@ -114,6 +114,11 @@ def run(sid, props, tier):
     assert out.strip() == "", "/repo not clean: " + out
     rc, out = sh("git -C /repo apply %s/patch.diff" % d)
     assert rc == 0, "patch does not apply to /repo: " + out
+    saved = {}
+    for p in props:
+        f = "/verif/evidence/%s.json" % p
+        if os.path.exists(f):
+            saved[f] = open(f, "rb").read()
     try:
         for p in props:
             env = "VERIF_SEED=%s " % os.environ.get("VERIF_SEED", "1")
@@ -126,7 +131,9 @@ def run(sid, props, tier):
                 print(out[-600:])
     finally:
         sh("git -C /repo checkout -- .")
-        # restore evidence of the unchanged tree later (caller re-runs the checks)
+        # evidence must describe the unchanged tree: put back what was there before the patched run
+        for f, b in saved.items():
+            open(f, "wb").write(b)
     json.dump(meta, open(os.path.join(d, "meta.json"), "w"), indent=1)
 
 
